@@ -32,6 +32,10 @@ CHECKS = {
          "VTLOperators defines an analytic invocation as: partition by the partition components, total order by the order keys (asc / desc), frame by position (data points) or by order-key value (range) between the bounds, then the function over the datapoints of the frame (aggregates ignore nulls; first_value / last_value take the boundary datapoint; lag / lead step inside the partition with an optional default; rank is the position; ratio_to_report divides by the partition sum). TLC (GenAnalytic) enumerates EVERY frame shape (rows and range; unbounded, 0-3 preceding, current, 0-3 following; lower bound not above the upper) x every windowed function x both directions, lag / lead offsets 0-3 with and without default, rank, ratio_to_report, with and without partition, inside calc and (thorough) at dataset level, over a partition of five datapoints holding a null and a partition of one; each invocation is replayed into run() under several row permutations, some under ALL 720 row orders; random invocations over random datasets are validated by TLC (VTLOperators_Trace).",
          "Orderings are total (no ties) as the property requires. Defaults of an omitted order by / window clause are not judged (explicit clauses only). Range frames only over Integer order keys. Standard deviations are checked by squaring; numbers at 1e-6 relative tolerance.",
          "TLA+ executable window semantics, TLC enumeration of all frame shapes replayed into run() under row permutations, TLC trace validation"),
+ 'C07': ('model_checking',
+         "VTLValidation defines check (boolean operand, error code / level where false, imbalance operand joined by key), check_datapoint (when / then rules per datapoint), check_hierarchy (left item against the signed sum of the right items per key, validation modes deciding which keys produce a result and what stands for an absent item, imbalance = left - right) and hierarchy (computed items in dependency order, input modes, output computed / all). TLC (GenValidation) evaluates them over datasets holding EVERY combination of absent / null / 0 / 2 / -2 of a rule's items (125 keys), every combination of two measures in {null,0,1,3} for datapoint rules, all 6 modes x outputs x input modes x rule shapes and both declaration orders of a two-level ruleset, checks the invariants InvalidSubsetOfAll, ErrorsOnlyWhereFalse, ImbalanceIsDifference, and every term is replayed into run() (twice, with permuted input rows) and compared datapoint by datapoint and component by component; random rulesets of 1-5 rules (when-conditions, error codes / levels, all modes) over random datasets are validated by TLC (VTLValidation_Trace).",
+         "Where the manual leaves a mode undetermined the engine reading is adopted and named (spec/READINGS.md 20-23): keys reported by always_*, hierarchy looking at right-side items only, input mode dataset not distinguished from rule, errorlevel typed Number by ruleset operators, cyclic rulesets rejected. Hierarchical rules are sums / differences without when-conditions over one Integer measure.",
+         "TLA+ executable validation semantics, TLC enumeration of all item-state combinations x modes replayed into run(), TLC trace validation"),
  'C08': ('model_checking',
          "VTLCalendar is the Gregorian calendar, ISO-8601 week numbering and the VTL periods in TLA+ integer arithmetic; for every requested year (quick: boundary years - leap, 53-week, century - plus seeded ones; thorough: EVERY year 1900-2100) TLC checks the theorems W53 exists <=> the ISO year has 53 weeks, D366 <=> leap year, shifting by k then -k is the identity for every period and every k in -60..60 (hence injective), and emits the expected tables. The engine is replayed in bulk: timeshift over ALL periods of all six indicators for each shift, time_agg for every (source, target) indicator pair incl. the error for finer targets, period_indicator / getyear on periods, getyear / getmonth / dayofmonth / dayofyear / cast(date, time_period) / time_agg(first|last) on EVERY day, dateadd (6 units x 10 amounts) and datediff on month-boundary days; generated series with gaps (timeshift, fill_time_series single / all, flow_to_stock, stock_to_flow) are validated by TLC (VTLTimeSeries_Trace). VTLCalendar itself is checked against Python datetime on every emitted day.",
          "Not judged (spec/READINGS.md 16-19): time_agg to the same indicator, a week straddling two target periods, getmonth / dayofmonth / dayofyear of non-daily periods; series carry small integers without nulls; quick tier uses a seeded subset of shifts per run (all shifts in the model).",
